@@ -17,6 +17,8 @@ EX = "chalk_engine::ExClause"
 
 
 def run(ck, facts, tier):
+    from props.c16 import canonical_vars_shifted
+    canonical_vars_shifted(ck, facts, "C28.CANONICAL-VARS-SHIFTED")
     from props.c14 import occurs_before_bind
     occurs_before_bind(ck, facts, "C28.UNIVERSE-CHECKED-BINDS")
     R = "C28.ARITY+KIND"
